@@ -381,7 +381,7 @@ def stochastic_setup(draw, m, x_hi=40, t_max=10.0, target_events=120, hard_event
     horizon = max(sig(horizon * draw(st.sampled_from([0.3, 1.0, 1.0])), 3), 1e-3)
     out = {"x0": x0, "theta": theta, "t0": t0, "horizon": horizon, "np_seed": draw(st.integers(0, 2 ** 32 - 1)),
            # whole-number populations handed over as ints, as floats (50.0) or as a float array
-           "x0_form": draw(st.sampled_from(["int", "int", "float", "float_array"]))}
+           "x0_form": draw(st.sampled_from(["int", "int", "int", "float", "float_array"]))}
     if slow != 1.0:
         out["clock"] = slow           # fixed leap sizes and literal rates added later have to be put on the same clock
     return out
